@@ -71,7 +71,7 @@ const c06Accounts = 3
 func VerifC06Supply() {
 	ctx := context.Background()
 	maxTxs := verifParam("maxTxs", 2, 2)
-	maxActions := verifParam("maxActionsSingleTx", 2, 4)
+	maxActions := verifParam("maxActionsSingleTx", 2, 3)
 	maxActionsMulti := verifParam("maxActionsPerTxInMultiTxBlocks", 1, 1)
 	var addrs [c06Accounts]codec.Address
 	for i := range addrs {
